@@ -146,6 +146,12 @@ class SpecialAdapter(Adapter):
                 if self.spelling % 2:
                     a = [o["h"].axis_names[i] for i in a]
                 o["d"] = o["h"].projection(*a)
+                # the same projection of the histogram scaled by 3 (contents x 3, squared errors x 9): contents AND errors of a
+                # projection are sums over the dropped axes, so the two projections differ by exactly these factors
+                h3 = o["h"] * 3
+                d3 = h3.projection(*a)
+                obs["scaled_projection"] = (np.asarray(d3.frequencies, dtype=float).tolist(), np.asarray(d3.errors2, dtype=float).tolist(),
+                                            (3 * np.asarray(o["d"].frequencies, dtype=float)).tolist(), (9 * np.asarray(o["d"].errors2, dtype=float)).tolist())
             else:
                 raise RuntimeError("unknown action " + action)
         except EXC as ex:
@@ -177,6 +183,10 @@ class SpecialAdapter(Adapter):
                 return Mismatch(["refused"], {"expected": "an exception", "observed": repr(obs["ret"])})
         elif obs["exc"] is not None:
             return Mismatch(["accepted"], {"raised": obs["exc"]})
+        sp_ = obs.get("scaled_projection")
+        if sp_ is not None and (sp_[0] != sp_[2] or sp_[1] != sp_[3]):
+            bad.append("err2" if sp_[1] != sp_[3] else "freq")
+            det["scaled_projection"] = {"projection of 3*h": {"freq": sp_[0], "err2": sp_[1]}, "3 / 9 times the projection of h": {"freq": sp_[2], "err2": sp_[3]}}
         if action in ("Fill", "FindBin"):
             ret = tuple(args[2])
             exp = None if ret == NO_CELL else ret
